@@ -221,7 +221,7 @@ class Verdicts:
         if fnd:
             self.known[fnd["id"]] = self.known.get(fnd["id"], 0) + 1
             return fnd
-        d = os.path.join(VERIF, "replays", self.prop)
+        d = os.path.join(os.environ.get("VERIF_REPLAY_DIR", os.path.join(VERIF, "replays")), self.prop)
         os.makedirs(d, exist_ok=True)
         blob = json.dumps(dict(property=self.prop, signature=signature, case=replay_obj), sort_keys=True)
         path = os.path.join(d, hashlib.sha1(blob.encode()).hexdigest()[:16] + ".json")
@@ -246,12 +246,51 @@ class Verdicts:
 
 
 def write_evidence(prop, tier, level, coverage, wall, violations, assumptions=()):
-    os.makedirs(os.path.join(VERIF, "evidence"), exist_ok=True)
+    evdir = os.environ.get("VERIF_EVIDENCE_DIR", os.path.join(VERIF, "evidence"))
+    os.makedirs(evdir, exist_ok=True)
     ev = dict(property_id=prop, tier=tier, seed=seed(), level=level, coverage=coverage,
               assumptions=list(assumptions), wall_s=round(wall, 2), violations=violations)
-    with open(os.path.join(VERIF, "evidence", prop + ".json"), "w") as f:
+    with open(os.path.join(evdir, prop + ".json"), "w") as f:
         json.dump(ev, f, indent=1, sort_keys=True)
 
 
 def shard(rows, n):
     return [rows[i::n] for i in range(n)]
+
+
+# ---------------------------------------------------------------- generic helpers
+
+def cfg_value(v):
+    if isinstance(v, bool):
+        return "TRUE" if v else "FALSE"
+    if isinstance(v, int):
+        return str(v)
+    return '"%s"' % v
+
+
+def tlc_eval(d, module, constants, timeout=1800, heap="3g", background=False):
+    """Evaluate a module whose work is done in ASSUMEs (GEN / JUDGE modules)."""
+    write_cfg(os.path.join(d, module + ".cfg"),
+              ["CONSTANTS"] + ["  %s = %s" % (k, cfg_value(v)) for k, v in constants.items()])
+    if background:
+        return start_tlc(d, module, module + ".cfg", workers=1, heap=heap)
+    return run_tlc(d, module, module + ".cfg", workers=1, timeout=timeout, heap=heap)
+
+
+def streams(n, length, seed_, salt=0, hi=1 << 20):
+    import random
+    rnd = random.Random(seed_ * 1000003 + salt)
+    return [dict(s=[rnd.randrange(hi) for _ in range(length)]) for _ in range(n)]
+
+
+def parallel(jobs, nproc=14):
+    """jobs: list of zero-arg callables; run in a thread pool, re-raise the first exception."""
+    from concurrent.futures import ThreadPoolExecutor
+    with ThreadPoolExecutor(max_workers=nproc) as ex:
+        futs = [ex.submit(j) for j in jobs]
+        return [f.result() for f in futs]
+
+
+def wall_guard(t0, budget):
+    if time.time() - t0 > budget:
+        raise MachineryError("wall-clock guard: %.0fs exceeded" % budget)
